@@ -537,19 +537,28 @@ func c09cRun(o *vh.Out, inAny any) {
 		panicked any
 		m0, m1   runtime.MemStats
 	)
-	runtime.ReadMemStats(&m0)
-	func() {
-		defer func() { panicked = recover() }()
-		lds, err = ot.NewLoaders(rd)
-	}()
-	runtime.ReadMemStats(&m1)
+	// MemStats.TotalAlloc is process-wide: the runtime's own goroutines (GC workers, timers) may allocate during
+	// the window, especially on a loaded machine. The call is deterministic, so it is measured twice and the
+	// smaller figure is kept (noise only adds).
+	alloc := int64(-1)
+	for round := 0; round < 2; round++ {
+		rd = bytes.NewReader(file)
+		runtime.ReadMemStats(&m0)
+		func() {
+			defer func() { panicked = recover() }()
+			lds, err = ot.NewLoaders(rd)
+		}()
+		runtime.ReadMemStats(&m1)
+		if a := int64(m1.TotalAlloc - m0.TotalAlloc); alloc < 0 || a < alloc {
+			alloc = a
+		}
+	}
 	status := int64(0)
 	if panicked != nil {
 		status = 2
 	} else if err != nil {
 		status = 1
 	}
-	alloc := int64(m1.TotalAlloc - m0.TotalAlloc)
 	var details []string
 	nraw := 0
 	var rawPanic any
@@ -569,12 +578,18 @@ func c09cRun(o *vh.Out, inAny any) {
 					e  error
 					pn any
 				)
-				runtime.ReadMemStats(&m0)
-				func() {
-					defer func() { pn = recover() }()
-					b, e = ld.RawTable(s.Tag)
-				}()
-				runtime.ReadMemStats(&m1)
+				rawAlloc := int64(-1)
+				for round := 0; round < 2; round++ { // measured twice, see above
+					runtime.ReadMemStats(&m0)
+					func() {
+						defer func() { pn = recover() }()
+						b, e = ld.RawTable(s.Tag)
+					}()
+					runtime.ReadMemStats(&m1)
+					if a := int64(m1.TotalAlloc - m0.TotalAlloc); rawAlloc < 0 || a < rawAlloc {
+						rawAlloc = a
+					}
+				}
 				st := int64(0)
 				if pn != nil {
 					st, b, rawPanic = 2, nil, pn
@@ -585,7 +600,7 @@ func c09cRun(o *vh.Out, inAny any) {
 					b = nil // inflated content is not compared (zlib is outside the model)
 					o.Count("raw:compressed")
 				}
-				raws = append(raws, vh.Tuple(vh.Z(int64(s.Tag)), vh.Z(st), vh.BytesLit(b), vh.Z(int64(m1.TotalAlloc-m0.TotalAlloc))))
+				raws = append(raws, vh.Tuple(vh.Z(int64(s.Tag)), vh.Z(st), vh.BytesLit(b), vh.Z(rawAlloc)))
 				o.Count(fmt.Sprintf("raw:status=%d", st))
 				nraw++
 			}
